@@ -157,6 +157,8 @@ def main():
         with shv.Scratch(keep=a.keep) as sc:
             for uname in cfg['units']:
                 unit = P.UNITS[uname]
+                sc.refresh()
+                injected.clear()
                 if unit['engine'] == 'kani':
                     hs = {h: hc for h, hc in unit['harnesses'].items()
                           if pid in hc['props'] and (a.tier == 'thorough' or hc.get('tier', 'quick') == 'quick')}
@@ -224,7 +226,7 @@ def main():
                     solver_s += r.get('solver_s', 0.0)
                     for k, v in r.get('discharged', {}).items():
                         if P.belongs(k, pid):
-                            if P.OBLIGATIONS.get(k, {}).get('kind', 'proved').startswith('bounded'):
+                            if v.get('bound') or P.OBLIGATIONS.get(k, {}).get('kind', 'proved').startswith('bounded'):
                                 bounded_ok[k] = dict(v, bound=v.get('bound') or P.OBLIGATIONS[k]['kind'])
                             else:
                                 discharged.setdefault(k, v)
@@ -279,6 +281,9 @@ def main():
     for o, hs_ in unreachable_in.items():
         if o not in discharged and o not in failed and o not in bounded_ok:
             undec.append('obligation %s is unreachable in every harness that states it (%s): vacuous' % (o, ', '.join(hs_)))
+    for o in list(bounded_ok):
+        if o in discharged:
+            bounded_ok.pop(o)
     for o in failed:
         discharged.pop(o, None)
         bounded_ok.pop(o, None)
